@@ -71,6 +71,12 @@ type config struct {
 	ApiTypes []string `json:"api_types"`
 	// exported functions without a caller in lal that are nevertheless not thread entry points
 	NotEntryPoints map[string]string `json:"not_entry_points"`
+	// packages (import paths) through which objects of the other packages become shared between goroutines
+	ConsumerPackages []string `json:"consumer_packages"`
+	// reviewed (published type, field written afterwards) pairs of the publication-order fact
+	PublicationExempt []pubExempt `json:"publication_exempt"`
+	// reviewed path conditions: the function returns at once unless the listed types are still unpublished
+	OnceGuards []onceGuard `json:"once_guards"`
 	// packages (import paths) that are not part of the server: not loaded as roots
 	ExcludePackages []string `json:"exclude_packages"`
 }
